@@ -121,9 +121,16 @@ class Impl:
         self.X = red.target.id
         recv = {c.func.value.id for s in red.body for c in walk_no_nested(s)
                 if is_method_call(c, 'add') and isinstance(c.func.value, ast.Name)}
-        if len(recv) != 1:
-            raise AnalysisError(f"{self.qual}: reduction loop adds to {sorted(recv)}; expected one watch set")
-        self.FV = recv.pop()
+        if not recv:
+            raise AnalysisError(f"{self.qual}: reduction loop adds to no set")
+        self.red_sets = sorted(recv)
+        # the watch set is the one the per-host grouping iterates; the others are auxiliary book-keeping sets
+        used = [nm for nm in self.red_sets
+                if any(mentions(f.iter, nm) and f is not red and not inside(f, red) for f in fors)]
+        if len(used) != 1:
+            raise AnalysisError(f"{self.qual}: reduction loop adds to {sorted(recv)}; cannot tell which one is the watch set "
+                                f"(iterated afterwards: {used})")
+        self.FV = used[0]
         core = strip_wrappers(red.iter)
         vnames = [n.id for n in ast.walk(core) if isinstance(n, ast.Name) and n.id not in WRAPPERS
                   and n.id not in dir(builtins)]
@@ -964,13 +971,217 @@ def _check_reduction(r, im):
         kind = 'itself' if 'x' in adds else 'top-level signal' if 'w' in adds else \
             'top-level signal already watched' if covered else None
         table.append((ctext, kind))
-        if kind is None:
+        aux = [nm for nm in im.red_sets if nm != FV and any(mentions(c, nm) for c, _ in conds)]
+        if kind is None and aux:
+            # the decision depends on an auxiliary set: no syntactic must-argument; decided by the evaluation of the
+            # whole reduction over the small configurations below
+            r.ok(m, fn, f"reduction path [{ctext}]: depends on auxiliary set {aux}; decided on configurations",
+                 nontrivial=False)
+        elif kind is None:
             r.bad(m, fn, f"reduction path [{ctext}]",
                   f"a cycle-carrying variable with [{ctext}] is neither added to {FV} itself nor covered by its top-level "
                   f"signal: it can still be changing when the super-block returns", red.lineno)
         else:
             r.ok(m, fn, f"reduction path [{ctext}]: watched via {kind}")
     im.red_table = table
+    # semantic decision: run the reduction on small configurations; every element must be covered by a kept object
+    for label, elems, kept, order in reduction_results(im):
+        r.evaluations += 1
+        lost = [e for e in elems if not _covered(e, kept)]
+        desc = f"{{{', '.join(map(repr, elems))}}} ({label}) -> kept {{{', '.join(sorted(map(repr, kept)))}}}"
+        if lost:
+            r.bad(m, fn, f"reduction of {{{', '.join(map(repr, elems))}}} ({label})",
+                  f"for the cycle-carrying variables {{{', '.join(map(repr, elems))}}} (visited {' , '.join(map(repr, order))}) the "
+                  f"reduction keeps {{{', '.join(sorted(map(repr, kept)))}}}: {', '.join(map(repr, lost))} is not covered "
+                  f"(neither itself nor one of its ancestors is snapshotted; a sibling field/slice does not cover it), so the "
+                  f"super-block can return while it is still changing", red.lineno)
+        else:
+            r.ok(m, fn, f"reduction {desc}: every element is kept or has a kept ancestor")
+
+
+# -- abstract evaluation of the reduction loop over small configurations ----------------------------------------
+class _Sig:
+    """abstract signal object: a top-level signal, a field or a slice of it"""
+    def __init__(self, name, typ, up=None):
+        self.name, self.typ, self.up = name, typ, up
+        self.top = up.top if up is not None else self
+
+    def __repr__(self):
+        return self.name
+
+    def ancestors(self):
+        p = self.up
+        while p is not None:
+            yield p
+            p = p.up
+
+
+class _SigDsl:
+    def __init__(self, sig):
+        self.sig = sig
+
+
+def _covered(e, kept):
+    return any(k is e for k in kept) or any(a is k for a in e.ancestors() for k in kept)
+
+
+def _configurations():
+    x = _Sig('s.x', 'struct')
+    a, b = _Sig('s.x.a', 'bits', x), _Sig('s.x.b', 'bits', x)
+    a02 = _Sig('s.x.a[0:2]', 'bits', a)
+    y = _Sig('s.y', 'bits')
+    y04, y26 = _Sig('s.y[0:4]', 'bits', y), _Sig('s.y[2:6]', 'bits', y)
+    z = _Sig('s.z', 'other')
+    za, zb = _Sig('s.z.a', 'bits', z), _Sig('s.z.b', 'bits', z)
+    return [('two fields of a bitstruct wire', [a, b]), ('bitstruct wire and one of its fields', [x, a]),
+            ('overlapping slices of a Bits wire', [y04, y26]), ('slice of a field and another field', [a02, b]),
+            ('Bits wire and one of its slices', [y, y04]), ('members of a top-level signal of another type', [za, zb]),
+            ('top-level signals only', [x, y])]
+
+
+class _RedEval(Evaluator):
+    def ev_Attribute(self, e):
+        base = self.ev(e.value)
+        if isinstance(base, _Sig) and e.attr == '_dsl':
+            return _SigDsl(base)
+        if isinstance(base, _SigDsl) and e.attr == 'Type':
+            return ('type', base.sig.typ)
+        raise AnalysisError(f"reduction loop reads `{norm(e)}`: outside the evaluated vocabulary")
+
+    def ev_Call(self, e):
+        f = e.func
+        if isinstance(f, ast.Attribute):
+            recv = self.ev(f.value)
+            args = [self.ev(a) for a in e.args]
+            if isinstance(recv, _Sig) and f.attr == 'get_top_level_signal' and not args:
+                return recv.top
+            if isinstance(recv, _Sig) and f.attr == 'get_parent_object' and not args and recv.up is not None:
+                return recv.up
+            if isinstance(recv, list) and f.attr == 'add' and len(args) == 1:        # sets are ordered lists here
+                if not any(x is args[0] for x in recv):
+                    recv.append(args[0])
+                return None
+            if isinstance(recv, list) and f.attr == 'discard' and len(args) == 1:
+                recv[:] = [x for x in recv if x is not args[0]]
+                return None
+            if isinstance(recv, list) and f.attr == 'update' and len(args) == 1 and isinstance(args[0], (list, tuple)):
+                for v in args[0]:
+                    if not any(x is v for x in recv):
+                        recv.append(v)
+                return None
+        elif isinstance(f, ast.Name) and f.id in ('any', 'all') and len(e.args) == 1 \
+                and isinstance(e.args[0], (ast.GeneratorExp, ast.ListComp)) and len(e.args[0].generators) == 1 \
+                and isinstance(e.args[0].generators[0].target, ast.Name):
+            g = e.args[0].generators[0]
+            seq = self.ev(g.iter)
+            if not isinstance(seq, list):
+                raise AnalysisError(f"reduction loop iterates `{norm(g.iter)}`: outside the evaluated vocabulary")
+            vals = []
+            saved = self.env.get(g.target.id, self)
+            for el in list(seq):
+                self.env[g.target.id] = el
+                if all(self.ev(c) for c in g.ifs):
+                    vals.append(bool(self.ev(e.args[0].elt)))
+            if saved is self:
+                self.env.pop(g.target.id, None)
+            else:
+                self.env[g.target.id] = saved
+            return any(vals) if f.id == 'any' else all(vals)
+        elif isinstance(f, ast.Name):
+            args = [self.ev(a) for a in e.args]
+            if f.id == 'issubclass' and len(args) == 2 and isinstance(args[0], tuple) and args[1] == 'BITS':
+                return args[0][1] == 'bits'
+            if f.id == 'is_bitstruct_class' and len(args) == 1 and isinstance(args[0], tuple):
+                return args[0][1] == 'struct'
+            if f.id == 'repr' and len(args) == 1:
+                return repr(args[0])
+            if f.id == 'len' and len(args) == 1 and isinstance(args[0], (list, str)):
+                return len(args[0])
+        raise AnalysisError(f"reduction loop calls `{norm(e)}`: outside the evaluated vocabulary")
+
+    def ev_Compare(self, e):
+        # membership / identity on abstract signals
+        left = self.ev(e.left)
+        for op, rt in zip(e.ops, e.comparators):
+            right = self.ev(rt)
+            if isinstance(op, (ast.In, ast.NotIn)) and isinstance(right, list):
+                res = any(x is left for x in right)
+                res = res if isinstance(op, ast.In) else not res
+            elif isinstance(op, (ast.Is, ast.Eq)):
+                res = left is right if isinstance(left, _Sig) or isinstance(right, _Sig) else left == right
+            elif isinstance(op, (ast.IsNot, ast.NotEq)):
+                res = left is not right if isinstance(left, _Sig) or isinstance(right, _Sig) else left != right
+            else:
+                raise AnalysisError(f"reduction loop compares `{norm(e)}`: outside the evaluated vocabulary")
+            if not res:
+                return False
+            left = right
+        return True
+
+
+class _Jump(Exception):
+    def __init__(self, kind):
+        self.kind = kind
+
+
+def _run_reduction_body(stmts, ev):
+    for st in stmts:
+        if isinstance(st, ast.If):
+            _run_reduction_body(st.body if ev.ev(st.test) else st.orelse, ev)
+        elif isinstance(st, ast.Assign) and len(st.targets) == 1 and isinstance(st.targets[0], ast.Name):
+            ev.env[st.targets[0].id] = ev.ev(st.value)
+        elif isinstance(st, ast.Expr):
+            ev.ev(st.value)
+        elif isinstance(st, ast.AugAssign) and isinstance(st.target, ast.Name) and isinstance(st.op, ast.BitOr):
+            cur, add = ev.ev(ast.Name(id=st.target.id, ctx=ast.Load())), ev.ev(st.value)
+            if not (isinstance(cur, list) and isinstance(add, list)):
+                raise AnalysisError(f"reduction loop statement outside the evaluated vocabulary: {norm(st)}")
+            for v in add:
+                if not any(x is v for x in cur):
+                    cur.append(v)
+        elif isinstance(st, ast.Continue):
+            raise _Jump('continue')
+        elif isinstance(st, ast.Break):
+            raise _Jump('break')
+        elif isinstance(st, ast.Pass):
+            pass
+        else:
+            raise AnalysisError(f"reduction loop statement outside the evaluated vocabulary: {norm(st)[:80]}")
+
+
+def reduction_results(im):
+    """[(label, elements, kept watch set, visiting order)] of the reduction loop run on the small configurations, for every
+    visiting order the loop header allows (repr order when the loop sorts by repr, else every permutation)"""
+    c = getattr(im, '_red_results', None)
+    if c is not None:
+        return c
+    import itertools
+    from sa.astutil import reaching_value
+    im.locate()
+    red = im.red
+    for nm in im.red_sets:
+        init = reaching_value(nm, red)
+        if not (isinstance(init, ast.Call) and norm(init.func) == 'set' and not init.args):
+            raise AnalysisError(f"{im.qual}: set {nm} used by the reduction loop is not initialised to an empty set before it")
+    it = red.iter
+    by_repr = isinstance(it, ast.Call) and norm(it.func) == 'sorted' and len(it.args) == 1 and \
+        [(k.arg, norm(k.value)) for k in it.keywords] == [('key', 'repr')]
+    out = []
+    for label, elems in _configurations():
+        orders = [sorted(elems, key=repr)] if by_repr else list(itertools.permutations(elems))
+        for order in orders:
+            sets = {nm: [] for nm in im.red_sets}
+            for el in order:
+                env = dict(sets)
+                env.update({im.X: el, 'Bits': 'BITS'})
+                try:
+                    _run_reduction_body(red.body, _RedEval(env))
+                except _Jump as j:
+                    if j.kind == 'break':
+                        break
+            out.append((label, list(elems), list(sets[im.FV]), list(order)))
+    im._red_results = out
+    return out
 
 
 def _count_appends(events):
@@ -2020,6 +2231,25 @@ def rule_siblings(repo):
                   f"{a.name} forces the error in iteration {per[a.name]}, {b.name} in iteration {per[b.name]}: a cycle that "
                   f"needs a number of passes between the two bounds settles under one scheduler and raises under the other "
                   f"({a.rel}:{a.root.lineno} / {b.rel}:{b.root.lineno})")
+    # the two reductions of the watched set agree on the small configurations
+    ra = {(lab, tuple(map(repr, order))): (elems, kept) for lab, elems, kept, order in reduction_results(a)}
+    rb = {(lab, tuple(map(repr, order))): (elems, kept) for lab, elems, kept, order in reduction_results(b)}
+    for key in sorted(set(ra) & set(rb)):
+        (ea, ka), (eb, kb) = ra[key], rb[key]
+        ca = [repr(e) for e in ea if _covered(e, ka)]
+        cb = [repr(e) for e in eb if _covered(e, kb)]
+        r.evaluations += 1
+        sa_, sb_ = sorted(map(repr, ka)), sorted(map(repr, kb))
+        cons = f"watch reduction of {{{', '.join(map(repr, ea))}}} ({key[0]})"
+        if ca != cb:
+            r.bad(b.mod if len(cb) < len(ca) else a.mod, b.qual if len(cb) < len(ca) else a.qual, cons,
+                  f"the two schedulers disagree on what is checked for stability: {a.name} keeps {{{', '.join(sa_)}}} "
+                  f"(covers {ca}), {b.name} keeps {{{', '.join(sb_)}}} (covers {cb}) -- {a.rel}:{a.red.lineno} / "
+                  f"{b.rel}:{b.red.lineno}")
+        else:
+            r.ok(a.mod, a.qual, cons + f": same coverage in {b.name}")
+            if sa_ != sb_:
+                r.observations.append(f"{cons}: {a.name} keeps {sa_}, {b.name} keeps {sb_} (both cover every element)")
     r.observations.append(_openloop_observation(repo))
     _floor(r, 3)
     return r
@@ -2217,8 +2447,21 @@ def rule_snapshot_clone(repo):
     return rule_traversal(repo)
 
 
+def rule_edges_instance(repo):
+    """the read/write sets an instance contributes to the graph are its own: a per-class cache entry of a lambda-connection
+    block (whose body depends on constructor parameters) must not be reused, or a looped instance inherits the acyclic
+    instance's edges and its loop is never iterated.  Shared with C02 (R-C02-cache-scope, R-C02-cache-readonly)."""
+    from rules.c02 import rule_cache_scope
+    return rule_cache_scope(repo)
+
+
+def rule_edges_instance_ro(repo):
+    from rules.c02 import rule_cache_readonly
+    return rule_cache_readonly(repo)
+
+
 RULES = [rule_template, rule_watch, rule_once, rule_cover, rule_siblings, rule_acyclic, rule_metaname, rule_msg,
-         rule_edges_funcs, rule_edges_overlap, rule_edges_pairing, rule_snapshot_clone]
+         rule_edges_funcs, rule_edges_overlap, rule_edges_pairing, rule_snapshot_clone, rule_edges_instance, rule_edges_instance_ro]
 
 EXPLANATION = (
     "Static analysis of the two cyclic-capable schedulers (DynamicSchedulePass.schedule_intra_cycle, "
@@ -2233,7 +2476,9 @@ EXPLANATION = (
     "decides that the watched set covers every variable carrying the cycle: GenDAGPass records the inducing signal under the "
     "key of every value-induced edge it adds; union of constraint_objs[(u,v)] over all edges "
     "inside the SCC with no other filter and the stored key orientation, the reduction keeps each variable or its top-level "
-    "signal on every path, every kept variable is grouped under its host and gets exactly one snapshot and one comparison, "
+    "signal on every path and, evaluated abstractly over small configurations ({x.a,x.b}, {x,x.a}, overlapping slices, "
+    "field-slice + field, ...; auxiliary book-keeping sets allowed), leaves every element covered by itself or a kept ancestor "
+    "(a sibling field does not cover), with the same coverage in both schedulers (R-C11-siblings), every kept variable is grouped under its host and gets exactly one snapshot and one comparison, "
     "the snapshot is clone()/deepcopy (never an alias) and is compared with the same variable. R-C11-once decides that an "
     "update_once block in the SCC and an SCC without value-carrying variables raise UpblkCyclicError before the block is "
     "generated. R-C11-cover decides that the generated loop calls exactly the blocks of the BFS schedule and that the BFS "
@@ -2320,6 +2565,19 @@ MUTANTS = [
        "                constraint_objs[ (eq_blk, co_blk) ].add( obj )", 'R-C11-watch', file=GENDAG),
     _m('gendag-records-the-block', "                constraint_objs[ (eq_blk, co_blk) ].add( obj )",
        "                constraint_objs[ (eq_blk, co_blk) ].add( eq_blk )", 'R-C11-watch', file=GENDAG),
+    dict(name='dyn-one-snapshot-per-top-level-signal', rule='R-C11-watch', edits=[
+        dict(file=DYN, old="        final_variables = set()\n\n        for x in sorted( variables, key=repr ):",
+             new="        final_variables = set()\n        covered_tops    = set()\n\n        for x in sorted( variables, key=repr ):"),
+        dict(file=DYN, old="          if w is x:\n            final_variables.add( x )\n            continue\n",
+             new="          if w is x:\n            final_variables.add( x )\n            covered_tops.add( x )\n            continue\n\n"
+                 "          if w in covered_tops:\n            continue\n          covered_tops.add( w )\n"),
+        dict(file=DYN, old="          if issubclass( w._dsl.Type, Bits ):\n            if w not in final_variables:\n"
+                           "              final_variables.add( w )\n          elif is_bitstruct_class( w._dsl.Type ):\n"
+                           "            if w not in final_variables:\n              final_variables.add( x )\n          else:",
+             new="          if issubclass( w._dsl.Type, Bits ):\n            final_variables.add( w )\n          else:")]),
+    _m('mamba-struct-fields-share-one-snapshot', "          if w not in final_variables:\n            final_variables.add( x )",
+       "          if not any( y.get_top_level_signal() is w for y in final_variables ):\n            final_variables.add( x )",
+       'R-C11', file=MAMBA),
     # --- rejections
     _m('dyn-once-test-inverted', "          if x in onces:\n", "          if x not in onces:\n", 'R-C11-once'),
     _m('dyn-onces-never-consulted', "onces = top.get_all_update_once()", "onces = set()", 'R-C11-once'),
